@@ -153,6 +153,11 @@ C18_UNUSED static void c18_p_any(ddpany *a) {
 		} else if (vt->type_size == 8) {
 			uint64_t u;
 			memcpy(&u, val, 8);
+			// the published accessor macro used the way callees use it: inside a larger expression
+			uint64_t through_macro = *(uint64_t *)DDP_ANY_VALUE_PTR(a);
+			if (through_macro != u) {
+				printf("!macro-mismatch ");
+			}
 			printf("%016llx", (unsigned long long)u);
 		} else {
 			printf("?");
